@@ -147,6 +147,7 @@ def run(ctx):
                     continue
                 used = {k: v for k, v in q.items() if k != "fresh"}
                 ctx.cov["traces_validated_against_impl"] = ctx.cov.get("traces_validated_against_impl", 0) + 1
+                ctx.cov["oracle_cases"] += 1     # an answer compared with the answer of a brand-new object
                 if not same(used, q["fresh"]):
                     sig = f"{kind}:history"
                     if not ctx.seen(sig):
